@@ -202,8 +202,8 @@ pub fn check(case: &Case) -> Verdict {
     let ma = ra.mul(sa);
     let mb = rb.mul(sb);
     // rounding error of one conversion, as a magnitude, for either direction
-    let b_in_a = amt::product_budget(&[&rb, sb, &sa.recip()]).map(|e| e.mul(sa));
-    let a_in_b = amt::product_budget(&[&ra, sa, &sb.recip()]).map(|e| e.mul(sb));
+    let b_in_a = amt::product_budget_reps(&[&rb, sb, &sa.recip()], &[sa, sb]).map(|e| e.mul(sa));
+    let a_in_b = amt::product_budget_reps(&[&ra, sa, &sb.recip()], &[sa, sb]).map(|e| e.mul(sb));
     let (Some(e1), Some(e2)) = (b_in_a, a_in_b) else {
         return pass("cross-unit-extreme", true);
     };
